@@ -497,6 +497,24 @@ def check_population(tier, want):
                 for i, p0 in enumerate(parents):
                     if table.get(p0.genome.tobytes()) != p0.fitness:
                         viol("C02", "an engine changed its parents")
+        # twin: SHADE's current-to-p-best mutation on tied fitness values, (f, max) vs (-f, min), same random draws
+        from pyhms.demes.single_pop_eas.de import CurrentToPBestMutation
+        for trial in range(40):
+            n = 20
+            fits = np.array([rng.choice([0.0, 0.25, 0.5, 0.75]) for _ in range(n)])
+            G = np.array([[rng.uniform(-4, 4), rng.uniform(-4, 4)] for _ in range(n)])
+            fmax = FunctionProblem(f, box, True)
+            fmin = FunctionProblem(f, box, False)
+            ff = np.full((n, 1), 0.5)
+            pp = np.full(n, 0.15)
+            np.random.seed(trial)
+            a = CurrentToPBestMutation()(Population(G.copy(), fits.copy(), fmax), None, ff, pp)
+            np.random.seed(trial)
+            b = CurrentToPBestMutation()(Population(G.copy(), -fits.copy(), fmin), None, ff, pp)
+            case(True, dict(fn="CurrentToPBestMutation", n=n, tied=True) if trial == 0 else None)
+            if want == "C13" and not np.array_equal(a.genomes, b.genomes):
+                viol("C13", "SHADE's current-to-p-best mutation breeds different mutants on (f, maximize) and (-f, minimize) with the same random draws",
+                     dict(tied_fitness_values=sorted(set(fits.tolist())), rows_differing=int(np.sum(np.any(a.genomes != b.genomes, axis=1)))))
         # twin: tournament winners on (f, max) vs (-f, min)
         for trial in range(30):
             n = 6
